@@ -5,7 +5,7 @@
 namespace ec {
 
 static bool cls_serves(const std::string &cls, const std::string &prop) {
-    return cls == "mapped" && (prop == "C11" || prop == "C12" || prop == "C17");
+    return cls == "mapped" && (prop == "C11" || prop == "C12" || prop == "C17" || prop == "C07");
 }
 
 struct EngineC {
